@@ -53,14 +53,21 @@ pub struct CliOut {
 }
 
 pub fn run_cli(bin: &PathBuf, args: &[String], timeout: Duration) -> CliOut {
-    let mut child = match Command::new(bin)
-        .args(args)
-        .stdin(Stdio::null())
-        .stdout(Stdio::piped())
-        .stderr(Stdio::piped())
-        .env("RUST_BACKTRACE", "0")
-        .spawn()
-    {
+    run_cli_in(bin, args, timeout, None, None)
+}
+
+/// Same, optionally from another working directory and with a directory put in front of PATH.
+pub fn run_cli_in(bin: &PathBuf, args: &[String], timeout: Duration, cwd: Option<&std::path::Path>, path_front: Option<&std::path::Path>) -> CliOut {
+    let mut cmd = Command::new(bin);
+    cmd.args(args).stdin(Stdio::null()).stdout(Stdio::piped()).stderr(Stdio::piped()).env("RUST_BACKTRACE", "0");
+    if let Some(d) = cwd {
+        cmd.current_dir(d);
+    }
+    if let Some(p) = path_front {
+        let old = std::env::var("PATH").unwrap_or_default();
+        cmd.env("PATH", format!("{}:{}", p.display(), old));
+    }
+    let mut child = match cmd.spawn() {
         Ok(c) => c,
         Err(e) => return CliOut { code: None, stdout: String::new(), stderr: format!("spawn failed: {}", e), timed_out: false },
     };
